@@ -239,6 +239,9 @@ func (vc *VC) entryStateUncached(sp *ssa.Package) (*State, error) {
 func unionProps(fc *FuncContract) []string {
 	m := map[string]bool{}
 	for _, c := range fc.Clauses {
+		if c.Kind == "assumes" {
+			continue
+		}
 		for _, p := range c.Props {
 			m[p] = true
 		}
